@@ -212,6 +212,18 @@ CHECKS = {
             "times in each. Simulation histories reuse C08's generator; plans reuse C19's.",
             "vlib/d09.py runs in the child interpreters; children import the working tree under test.",
             "DESIGN.md §4 C09"),
+    "C04": ("translation_validation",
+            "differential testing of Hypothesis-generated hierarchical designs: emitted RTLIL parsed and executed by an "
+            "independent reader/evaluator, in lock step with amaranth's simulator under generated event lists",
+            "For every generated design (module trees with generated programs over the whole expression/statement "
+            "grammar, several clock domains, async resets, wrappers, memories, signals split between domains, "
+            "combinational links crossing module boundaries in all directions, random port sets) the RTLIL text is read "
+            "by a reader written from the format description and executed by an evaluator written from the published "
+            "cell semantics; after every event every output and every named signal of every module must agree with the "
+            "simulator (undefined RTLIL bits masked and counted). This validates each translation instance rather than the "
+            "translator, which is the strongest thing a generated-input technique can give for a compiler back end.",
+            "Trusted base: vlib/rtlil_read.py, vlib/rtlil_eval.py (Yosys cell library semantics). $print/$check not executed.",
+            "DESIGN.md §3, §4 C04"),
 }
 
 TITLES = {}
